@@ -56,14 +56,14 @@ theorem rawEntry_ok (cfg : Cfg) (sec : SecBuf) (hR : sec.Resident)
   · rw [is32_c64]; exact rawEntry64 e sec hR hent idx hi
 
 theorem getString_ok (s : SecBuf) (hI : s.Inv) (idx : BitVec 32) :
-    getString (some s) idx = .ok (some s.getData, strAt s.content idx.toNat) := by
+    getString (some s) idx = .ok (some s.getData, dynStrAt s.content idx.toNat) := by
   obtain ⟨hR, hc⟩ := getData_inv hI
   rw [← hc, content_resident hR]
   have hlen := view_length hR
   have hs := s.getData.size.isLt
   have hx := idx.isLt
   simp only [Nat.reducePow] at hs hx
-  unfold getString strAt
+  unfold getString dynStrAt
   simp only
   by_cases hlt : idx.toNat < s.getData.view.length
   · rw [if_pos hlt]
@@ -79,7 +79,7 @@ theorem getString_ok (s : SecBuf) (hI : s.Inv) (idx : BitVec 32) :
     have hsl : slice s.getData.view idx.toNat (s.getData.size.toNat - idx.toNat) = s.getData.view.drop idx.toNat := by
       unfold slice; rw [List.take_of_length_le (by simp; omega)]
     simp only [g1, g2, Bool.false_eq_true, ↓reduceIte, hrem, r, hsl, bind, Except.bind, pure, Except.pure,
-      cString, cstr]
+      cString, dynCstr]
   · rw [if_neg hlt]
     rw [hlen] at hlt
     have g1 : dynstr_get_oob idx s.getData.size s.getData.data.isNone = true := by
@@ -88,7 +88,7 @@ theorem getString_ok (s : SecBuf) (hI : s.Inv) (idx : BitVec 32) :
 
 /-- `get_string` through the linked table, in terms of the abstract table -/
 theorem getString_str (s : Option SecBuf) (tbl : Option Bytes) (h : StrOk s tbl) (idx : BitVec 32) :
-    ∃ s', getString s idx = .ok (s', tbl.bind (fun t => strAt t idx.toNat)) ∧ StrOk s' tbl := by
+    ∃ s', getString s idx = .ok (s', tbl.bind (fun t => dynStrAt t idx.toNat)) ∧ StrOk s' tbl := by
   cases s with
   | none =>
     cases tbl with
@@ -139,7 +139,7 @@ theorem getEntryCore_ok (a : DynAcc) (c : Bytes) (tbl : Option Bytes) (hB : Base
         unfold dyn_get_string_index; bvn
       rw [hidx] at hg
       simp only [hg]
-      cases hres : tbl.bind (fun t => strAt t (val.toNat % 4294967296)) with
+      cases hres : tbl.bind (fun t => dynStrAt t (val.toNat % 4294967296)) with
       | none =>
         exact ⟨_, _, rfl, ⟨hB1.inv, hB1.content, hB1.cls, hB1.ent, hs'⟩, rfl, rfl, rfl⟩
       | some str =>
@@ -156,7 +156,7 @@ theorem resolve_tag (tbl : Option Bytes) (e : DynEntry) :
   unfold resolve
   by_cases h : stringValued e.tag = true
   · rw [if_pos h]
-    cases tbl.bind fun t => strAt t (e.val % 4294967296) <;> rfl
+    cases tbl.bind fun t => dynStrAt t (e.val % 4294967296) <;> rfl
   · rw [if_neg h]
 
 theorem outOf_tag {r : GetRes} {e : DynEntry} {tbl : Option Bytes} (prev : BitVec 64)
@@ -338,8 +338,8 @@ theorem addEntry_ok (a : DynAcc) (c : Bytes) (tbl : Option Bytes) (hB : Base a c
     rw [mkRec64_eq, ← hcfg] at hB'
     exact ⟨_, rfl, ⟨hB'.inv, hB'.content, hB'.cls, hB'.ent, hB'.str⟩, rfl, rfl⟩
 
-theorem cstr_length_le (s : Bytes) : (cstr s).length ≤ s.length := by
-  unfold cstr
+theorem cstr_length_le (s : Bytes) : (dynCstr s).length ≤ s.length := by
+  unfold dynCstr
   induction s with
   | nil => simp
   | cons b bs ih =>
@@ -385,7 +385,7 @@ theorem addString_ok (s : SecBuf) (hI : s.Inv) (str : Bytes)
     unfold dynstr_add_pos; rw [hlen] at hb ⊢; bvn; omega
   unfold addString strAdd
   simp only
-  have hcs : List.takeWhile (fun x => x != 0) str = cstr str := rfl
+  have hcs : List.takeWhile (fun x => x != 0) str = dynCstr str := rfl
   rw [hcs]
   by_cases h0 : s.content.length = 0
   · have hseed : dynstr_add_seed (dynstr_add_pos s.size) = true := by
@@ -399,7 +399,7 @@ theorem addString_ok (s : SecBuf) (hI : s.Inv) (str : Bytes)
     have hp1 : (dynstr_add_pos s.size + 1).toNat = s1.content.length := by
       have h1 : (1 : BitVec 32).toNat = 1 := rfl
       rw [BitVec.toNat_add, h1, hpos, h0, c1]; rfl
-    obtain ⟨s2, e2, i2, c2⟩ := addStringAt_ok s1 (Or.inl r1) _ (cstr str) hp1 (by rw [c1]; simp; omega)
+    obtain ⟨s2, e2, i2, c2⟩ := addStringAt_ok s1 (Or.inl r1) _ (dynCstr str) hp1 (by rw [c1]; simp; omega)
     simp only [hseed, ↓reduceIte, e1, bind, Except.bind, e2, h0]
     refine ⟨s2, _, rfl, i2, by rw [c2, c1], ?_⟩
     rw [hp1, c1]
@@ -410,7 +410,7 @@ theorem addString_ok (s : SecBuf) (hI : s.Inv) (str : Bytes)
       | true =>
         have : dynstr_add_pos s.size = 0#32 := by simpa using h
         rw [this] at hpos; exact absurd hpos.symm h0
-    obtain ⟨s2, e2, i2, c2⟩ := addStringAt_ok s hI _ (cstr str) hpos (by omega)
+    obtain ⟨s2, e2, i2, c2⟩ := addStringAt_ok s hI _ (dynCstr str) hpos (by omega)
     simp only [hseed, Bool.false_eq_true, ↓reduceIte, e2, h0]
     exact ⟨s2, _, rfl, i2, c2, hpos⟩
 
@@ -683,7 +683,7 @@ theorem reload_good (a : DynAcc) (c : Bytes) (tbl : Option Bytes) (hG : Good a c
 def Shows (cls : Cls) (tbl : Option Bytes) : Added → DynEntry → Prop
   | .val t v, e => e = normEntry cls ⟨t, v⟩
   | .str t s, e => e.tag = sextTag cls t ∧
-      (stringValued e.tag = true → ∀ tb, tbl = some tb → strAt tb (e.val % 4294967296) = some (cstr s))
+      (stringValued e.tag = true → ∀ tb, tbl = some tb → dynStrAt tb (e.val % 4294967296) = some (dynCstr s))
 
 /-- the k-th added item is the k-th entry -/
 def Tracked (cls : Cls) (tbl : Option Bytes) (adds : List Added) (es : List DynEntry) : Prop :=
@@ -794,7 +794,7 @@ theorem get_added (cls : Cls) (tbl : Option Bytes) (adds : List Added) (es : Lis
       match ad with
       | .val t v => dynGet es tbl k = resolve tbl (normEntry cls ⟨t, v⟩)
       | .str t s => stringValued (sextTag cls t) = true → ∀ tb, tbl = some tb →
-          ∃ off, dynGet es tbl k = .ok (sextTag cls t) off (cstr s) := by
+          ∃ off, dynGet es tbl k = .ok (sextTag cls t) off (dynCstr s) := by
   have hlt : k < es.length := Nat.lt_of_lt_of_le hk (dynCount_le es)
   have hlt' : k < adds.length := by rw [h.1]; exact hlt
   refine ⟨adds[k], List.getElem?_eq_getElem hlt', ?_⟩
@@ -964,8 +964,8 @@ example : normEntry .c64 ⟨16, 99⟩ = ⟨16, 0⟩ := by decide
 example : TagFits .c32 0xFFFFFFFF80000001 ∧ ¬ TagFits .c32 0x80000001 ∧ TagFits .c64 0x80000001 := by
   simp only [TagFits]; decide
 example : dynCount [⟨3, 1⟩, ⟨0, 0⟩, ⟨5, 2⟩] = 2 ∧ dynCount [⟨3, 1⟩, ⟨5, 2⟩] = 2 ∧ dynCount [] = 0 := by decide
-example : strAt [0, 97, 98, 0, 99] 1 = some [97, 98] ∧ strAt [0, 97, 98, 0, 99] 4 = none ∧
-    strAt [0, 97, 98, 0, 99] 2 = some [98] := by decide
+example : dynStrAt [0, 97, 98, 0, 99] 1 = some [97, 98] ∧ dynStrAt [0, 97, 98, 0, 99] 4 = none ∧
+    dynStrAt [0, 97, 98, 0, 99] 2 = some [98] := by decide
 
 end C12
 end ElfioVerif
